@@ -81,6 +81,48 @@ func checkC13(c *Ctx) {
 		return
 	}
 	raw := fn.Params[1]
+	// the decoder and the helpers it is split into (methods and functions of the package it calls statically,
+	// transitively; the chunk/delta/header decoders are units of their own)
+	uni := map[*ssa.Function]bool{fn: true}
+	{
+		work := []*ssa.Function{fn}
+		for len(work) > 0 {
+			f := work[len(work)-1]
+			work = work[:len(work)-1]
+			for _, b := range f.Blocks {
+				for _, in := range b.Instrs {
+					call, ok := in.(*ssa.Call)
+					if !ok {
+						continue
+					}
+					g := call.Common().StaticCallee()
+					if g == nil || g.Pkg != p.SPkg || g.Blocks == nil || uni[g] || g.Name() == "Unmarshal" || g == lm {
+						continue
+					}
+					uni[g] = true
+					work = append(work, g)
+				}
+			}
+		}
+	}
+	var uniFns []*ssa.Function
+	for f := range uni {
+		uniFns = append(uniFns, f)
+	}
+	sort.Slice(uniFns, func(i, j int) bool {
+		if (uniFns[i] == fn) != (uniFns[j] == fn) {
+			return uniFns[i] == fn
+		}
+		return uniFns[i].String() < uniFns[j].String()
+	})
+	var guardBlock0 func(b *ssa.BasicBlock) bool
+	inGuard := func(e *num.Engine, in ssa.Instruction) bool {
+		if in.Parent() == fn {
+			return guardBlock0(in.Block())
+		}
+		rc := e.RootCall()
+		return rc != nil && rc.Parent() == fn && guardBlock0(rc.Block())
+	}
 
 	// blocks dominated by both declared-length guards: totalLength >= 20 and len(rawPacket) >= totalLength
 	guardBlock := declaredLengthGuard(fn, total, raw)
@@ -88,6 +130,8 @@ func checkC13(c *Ctx) {
 		r.Fatalf("C13-DECL: the guards `totalLength < 20` / `len(rawPacket) < int(totalLength)` were not found")
 		return
 	}
+
+	guardBlock0 = func(b *ssa.BasicBlock) bool { return guardBlock.Dominates(b) && b != guardBlock }
 
 	// ---- run the engine with hooks
 	e := newNumEngine(c, nil)
@@ -101,23 +145,24 @@ func checkC13(c *Ctx) {
 	var declOrder []string
 	kinds := map[string]int{}
 	e.AccessHook = func(e *num.Engine, st *num.State, in ssa.Instruction, base ssa.Value, extent num.Lin) {
-		if in.Parent() != fn || base != ssa.Value(raw) {
+		if !uni[in.Parent()] || e.ActualOf(base) != ssa.Value(raw) {
 			return
 		}
-		if !guardBlock.Dominates(in.Block()) || in.Block() == guardBlock {
+		if !inGuard(e, in) {
 			return
 		}
 		kind := strings.TrimPrefix(fmt.Sprintf("%T", in), "*ssa.")
-		key := fmt.Sprintf("(*TransportLayerCC).Unmarshal/%s@%s", kind, p.Pos(instrPos(in)))
+		owner := core.FuncName(in.Parent())
+		key := fmt.Sprintf("%s/%s@%s", owner, kind, p.Pos(instrPos(in)))
 		d := decl[key]
 		if d == nil {
-			kinds[kind]++
-			key = fmt.Sprintf("(*TransportLayerCC).Unmarshal/%s#%d", kind, kinds[kind])
+			kinds[owner+"/"+kind]++
+			key = fmt.Sprintf("%s/%s#%d", owner, kind, kinds[owner+"/"+kind])
 			d = &declRes{pos: instrPos(in)}
 			decl[key] = d
 			declOrder = append(declOrder, key)
 			// remember mapping by position for later visits
-			decl[fmt.Sprintf("(*TransportLayerCC).Unmarshal/%s@%s", kind, p.Pos(instrPos(in)))] = d
+			decl[fmt.Sprintf("%s/%s@%s", owner, kind, p.Pos(instrPos(in)))] = d
 		}
 		d.seen++
 		tl := e.ExprOf(st, total)
@@ -138,7 +183,7 @@ func checkC13(c *Ctx) {
 		tIdx := structFieldIndex(rdNamed, "Type")
 		e.StoreHook = func(e *num.Engine, st *num.State, x *ssa.Store) {
 			fa, ok := x.Addr.(*ssa.FieldAddr)
-			if !ok || fa.Field != tIdx || x.Parent() != fn {
+			if !ok || fa.Field != tIdx || !uni[x.Parent()] {
 				return
 			}
 			al, ok := fa.X.(*ssa.Alloc)
@@ -164,7 +209,7 @@ func checkC13(c *Ctx) {
 	r.Check(symSeen >= 3 && symBad == 0, "C13-SYM", "(*TransportLayerCC).Unmarshal/placeholder-only-for-delta-symbols", p.Pos(symPos),
 		fmt.Sprintf("every RecvDelta placeholder gets a Type entailed within {1 small, 2 large} (%d evaluation(s) of the 3+ creation sites)", symSeen),
 		fmt.Sprintf("%d creation site evaluation(s); %s", symSeen, symDet))
-	r.Floor("C13-DECL", 10)
+	r.Floor("C13-DECL", 6)
 	for _, k := range declOrder {
 		d := decl[k]
 		r.Anchor("C13-DECL", k)
@@ -177,8 +222,12 @@ func checkC13(c *Ctx) {
 
 	// ---- C13-NOWRAP
 	r.Floor("C13-NOWRAP", 3)
-	cursorAdds := loopCarriedAdds(fn)
-	sort.Slice(cursorAdds, func(i, j int) bool { return cursorAdds[i].Pos() < cursorAdds[j].Pos() })
+	var cursorAdds []*ssa.BinOp
+	for _, f := range uniFns {
+		adds := loopCarriedAdds(f)
+		sort.Slice(adds, func(i, j int) bool { return adds[i].Pos() < adds[j].Pos() })
+		cursorAdds = append(cursorAdds, adds...)
+	}
 	n := 0
 	for _, add := range cursorAdds {
 		if !isFixedUnsigned(add.Type()) {
@@ -201,17 +250,19 @@ func checkC13(c *Ctx) {
 	// ---- C13-WIDTH
 	r.Floor("C13-WIDTH", 2)
 	nw := 0
-	for _, b := range fn.Blocks {
-		for _, in := range b.Instrs {
-			call, ok := in.(*ssa.Call)
-			if !ok || call.Common().Value != ssa.Value(rd) {
-				continue
+	for _, f := range uniFns {
+		for _, b := range f.Blocks {
+			for _, in := range b.Instrs {
+				call, ok := in.(*ssa.Call)
+				if !ok || call.Common().Value != ssa.Value(rd) {
+					continue
+				}
+				nw++
+				key := fmt.Sprintf("(*TransportLayerCC).Unmarshal/delta-call#%d", nw)
+				r.Anchor("C13-WIDTH", key)
+				ok2, why := deltaWidthRule(b, call)
+				r.Check(ok2, "C13-WIDTH", key, p.Pos(call.Pos()), why, why)
 			}
-			nw++
-			key := fmt.Sprintf("(*TransportLayerCC).Unmarshal/delta-call#%d", nw)
-			r.Anchor("C13-WIDTH", key)
-			ok2, why := deltaWidthRule(b, call)
-			r.Check(ok2, "C13-WIDTH", key, p.Pos(call.Pos()), why, why)
 		}
 	}
 
@@ -233,7 +284,7 @@ func checkC13(c *Ctx) {
 		r.Anchor("C13-CLIP", "localMin")
 		okM, whyM := isMinFunction(lm)
 		r.Check(okM, "C13-CLIP", "localMin/returns-min", p.Pos(lm.Pos()), whyM, whyM)
-		okC, whyC := clipRule(fn, lm)
+		okC, whyC := clipRule(uniFns, lm)
 		r.Check(okC, "C13-CLIP", "(*TransportLayerCC).Unmarshal/run-length-clip", p.Pos(fn.Pos()), whyC, whyC)
 	}
 }
@@ -583,14 +634,16 @@ func isMinFunction(f *ssa.Function) (bool, string) {
 }
 
 // clipRule: N = localMin(count - processed, runLength); inner loop j < N; processed += N.
-func clipRule(fn, lm *ssa.Function) (bool, string) {
+func clipRule(fns []*ssa.Function, lm *ssa.Function) (bool, string) {
 	var call *ssa.Call
-	for _, b := range fn.Blocks {
-		for _, in := range b.Instrs {
-			if cl, ok := in.(*ssa.Call); ok && cl.Common().Value == ssa.Value(lm) {
-				// the one in the run-length arm: second argument is a load of RunLength
-				if loadOfField(cl.Common().Args[1], "RunLength") || loadOfField(cl.Common().Args[0], "RunLength") {
-					call = cl
+	for _, fn := range fns {
+		for _, b := range fn.Blocks {
+			for _, in := range b.Instrs {
+				if cl, ok := in.(*ssa.Call); ok && cl.Common().Value == ssa.Value(lm) {
+					// the one in the run-length arm: second argument is a load of RunLength
+					if loadOfField(cl.Common().Args[1], "RunLength") || loadOfField(cl.Common().Args[0], "RunLength") {
+						call = cl
+					}
 				}
 			}
 		}
@@ -598,11 +651,43 @@ func clipRule(fn, lm *ssa.Function) (bool, string) {
 	if call == nil {
 		return false, "no localMin(..., RunLength) call found in the run-length arm"
 	}
-	// first argument: PacketStatusCount - processed
+	isClipSub := func(v ssa.Value) *ssa.BinOp {
+		if s, ok := v.(*ssa.BinOp); ok && s.Op == token.SUB && loadOfField(s.X, "PacketStatusCount") {
+			return s
+		}
+		return nil
+	}
+	// first argument: PacketStatusCount - processed, computed here or by the caller of a helper that
+	// receives it as a parameter
 	var sub *ssa.BinOp
+	var viaCall *ssa.Call // the helper's call site when the difference is computed by the caller
 	for _, a := range call.Common().Args {
-		if s, ok := a.(*ssa.BinOp); ok && s.Op == token.SUB && loadOfField(s.X, "PacketStatusCount") {
+		if s := isClipSub(a); s != nil {
 			sub = s
+		}
+		if prm, ok := a.(*ssa.Parameter); ok {
+			h := prm.Parent()
+			k := -1
+			for i, q := range h.Params {
+				if q == prm {
+					k = i
+				}
+			}
+			for _, fn := range fns {
+				for _, b := range fn.Blocks {
+					for _, in := range b.Instrs {
+						cl, ok := in.(*ssa.Call)
+						if !ok || cl.Common().StaticCallee() != h || k < 0 || k >= len(cl.Common().Args) {
+							continue
+						}
+						if s := isClipSub(cl.Common().Args[k]); s != nil {
+							sub, viaCall = s, cl
+						} else {
+							return false, "a caller of " + h.Name() + " does not pass PacketStatusCount - processed as the remaining count"
+						}
+					}
+				}
+			}
 		}
 	}
 	if sub == nil {
@@ -623,6 +708,33 @@ func clipRule(fn, lm *ssa.Function) (bool, string) {
 			}
 		}
 	}
+	if !usedAsAdvance && viaCall != nil {
+		// the helper returns N (possibly merged with the counts of its other arms) and the caller adds that
+		// result to the running counter
+		h := call.Parent()
+		for _, b := range h.Blocks {
+			ret, ok := b.Instrs[len(b.Instrs)-1].(*ssa.Return)
+			if !ok {
+				continue
+			}
+			for ri, rv := range ret.Results {
+				if !flowsThroughPhis(call, rv) {
+					continue
+				}
+				for _, ref := range *viaCall.Referrers() {
+					ex, ok := ref.(*ssa.Extract)
+					if !ok || ex.Index != ri {
+						continue
+					}
+					for _, r2 := range *ex.Referrers() {
+						if x, ok := r2.(*ssa.BinOp); ok && x.Op == token.ADD && (x.X == sub.Y || x.Y == sub.Y) {
+							usedAsAdvance = true
+						}
+					}
+				}
+			}
+		}
+	}
 	if !usedAsBound {
 		return false, "the number of placeholders created is not bounded by the clipped run length (j < N)"
 	}
@@ -630,4 +742,28 @@ func clipRule(fn, lm *ssa.Function) (bool, string) {
 		return false, "the processed counter is not advanced by the clipped run length N"
 	}
 	return true, "N = localMin(PacketStatusCount - processed, RunLength) bounds the placeholder loop and is added to processed"
+}
+
+// flowsThroughPhis: v is src or a phi (of phis) one of whose operands is src.
+func flowsThroughPhis(src ssa.Value, v ssa.Value) bool {
+	seen := map[ssa.Value]bool{}
+	var walk func(v ssa.Value) bool
+	walk = func(v ssa.Value) bool {
+		if v == src {
+			return true
+		}
+		if seen[v] {
+			return false
+		}
+		seen[v] = true
+		if phi, ok := v.(*ssa.Phi); ok {
+			for _, e := range phi.Edges {
+				if walk(e) {
+					return true
+				}
+			}
+		}
+		return false
+	}
+	return walk(v)
 }
